@@ -1,4 +1,5 @@
 import GeoVerif.Model.Conic
+import GeoVerif.Model.ConicKernels
 import GeoVerif.Spec.RealInst
 import GeoVerif.Proofs.Conic
 import Mathlib.Tactic.Ring
@@ -482,5 +483,852 @@ theorem Deatanhe_dd_prolate (es x y : ℝ) (hes : es ≤ 0) (hprod : -1 < es * x
 
 example : (-(1 / 2) : ℝ) ≤ 0 ∧ (-1 : ℝ) < -(1 / 2) * 1 * (-(1 / 2) * (1 / 3)) := by
   constructor <;> norm_num
+
+/-! ## The cone kernels (`Model/ConicKernels.lean`): the coded expressions are the textbook closed forms -/
+
+/-- **Cone geometry.**  With `nrho0 = n ρ0` and `drho = ρ − ρ0` the coded `x`, `y` are Snyder's `ρ sin θ`, `ρ0 − ρ cos θ`
+    (both branches of the cancellation-free `1 − cos θ`). -/
+theorem cone_xy_closed (n ρ0 drho s c lam : ℝ) (hn : n ≠ 0) (hsc : s ^ 2 + c ^ 2 = 1) :
+    coneX (n * ρ0) n drho s lam = (ρ0 + drho) * s ∧ coneY (n * ρ0) n drho s c = ρ0 - (ρ0 + drho) * c := by
+  constructor
+  · simp only [coneX, eqb_real, zero_real, hn, decide_false, Bool.not_false, if_true]
+    field_simp
+  · simp only [coneY, eqb_real, ltb_real, zero_real, one_real, sq_real, hn, decide_false, Bool.not_false, if_true]
+    by_cases hc : c < 0
+    · simp only [hc, decide_true, if_true]
+      field_simp
+      ring
+    · simp only [hc, decide_false, Bool.false_eq_true, if_false]
+      have h1 : 1 + c ≠ 0 := by
+        have := not_lt.mp hc
+        linarith
+      have hs : s ^ 2 = (1 - c) * (1 + c) := by linear_combination hsc
+      rw [hs]
+      field_simp
+      ring
+
+/-- **LCC `Forward`: `drho = ρ − ρ0`.**  For a cone with `n² + nc² = 1`, `n ≠ 0`, the coded `drho` (either branch: the
+    direct form with `exp((1−n)ψ)·e^{−ψ}` or the divided difference `Dexp`) is `(scale/n)(e^{−nψ} − e^{−nψ0})`, i.e.
+    `ρ(φ) − ρ(φ0)` for Snyder's `ρ = a F tⁿ` with `t = e^{−ψ}`, `a F = scale/n`. -/
+theorem lcc_drho_closed (scale n nc psi0 tchi : ℝ) (hn : n ≠ 0) (h1n : 1 + n ≠ 0) (hnc : nc ^ 2 = (1 - n) * (1 + n)) :
+    lccDrho scale n nc (expm1 (-n * psi0)) psi0 tchi (hyp tchi) (Real.arsinh tchi) (Real.arsinh tchi - psi0) =
+      scale / n * (Real.exp (-n * Real.arsinh tchi) - Real.exp (-n * psi0)) := by
+  set psi := Real.arsinh tchi with hpsi
+  unfold lccDrho
+  simp only [expm1_real, emPsi_real, sq_real, eqb_real, ltb_real, zero_real, one_real, two_real, exp_real]
+  have hfrac : nc ^ 2 / (1 + n) = 1 - n := by rw [hnc]; field_simp
+  by_cases hb : (2 * nc < 1 ∧ ¬ (psi - psi0 = 0))
+  · obtain ⟨h1, h2⟩ := hb
+    simp only [h1, h2, decide_true, decide_false, Bool.not_false, Bool.and_self, if_true]
+    rw [hfrac, ← hpsi, ← Real.exp_add]
+    have e1 : (1 - n) * psi + -psi = -n * psi := by ring
+    rw [e1]
+    field_simp
+    ring
+  · have hcond : (decide (2 * nc < 1) && !decide (psi - psi0 = 0)) = false := by
+      by_cases h1 : 2 * nc < 1
+      · have h2 : psi - psi0 = 0 := by
+          by_contra h2
+          exact hb ⟨h1, h2⟩
+        simp [h1, h2]
+      · simp [h1]
+    simp only [hcond, Bool.false_eq_true, if_false]
+    by_cases hd : psi - psi0 = 0
+    · have : psi = psi0 := by linarith
+      rw [this]; simp
+    · have hne : -n * psi ≠ -n * psi0 := by
+        intro h
+        apply hd
+        have : n * (psi - psi0) = 0 := by linarith
+        rcases mul_eq_zero.mp this with h' | h'
+        · exact absurd h' hn
+        · exact h'
+      rw [Dexp_dd _ _ hne]
+      have hxy : -n * psi - -n * psi0 = -n * (psi - psi0) := by ring
+      rw [hxy]
+      generalize Real.exp (-n * psi) = A
+      generalize Real.exp (-n * psi0) = B
+      have hd' : psi - psi0 ≠ 0 := hd
+      field_simp
+
+/-- **LCC `Forward`: the scale.**  `k = k0 (scβ e^{−nψ}) / (scβ0 e^{−nψ0})`, i.e. `k/k0 = (ρ/m)/(ρ0/m0)` with `m = 1/scβ`. -/
+theorem lcc_k_closed (k0 scbet0 n nc scbet tchi tchi0 : ℝ) (h1n : 1 + n ≠ 0) (hnc : nc ^ 2 = (1 - n) * (1 + n)) (hs0 : scbet0 ≠ 0) :
+    lccK k0 scbet0 tchi0 (hyp tchi0) n nc scbet tchi (hyp tchi) (Real.arsinh tchi - Real.arsinh tchi0) =
+      k0 * (scbet * Real.exp (-n * Real.arsinh tchi)) / (scbet0 * Real.exp (-n * Real.arsinh tchi0)) := by
+  unfold lccK
+  simp only [epPsi_real, sq_real, one_real, exp_real]
+  have hfrac : nc ^ 2 / (1 + n) = 1 - n := by rw [hnc]; field_simp
+  rw [hfrac, add_comm (hyp tchi0) tchi0, ← exp_arsinh_hyp]
+  set p := Real.arsinh tchi
+  set p0 := Real.arsinh tchi0
+  have e : Real.exp (-(1 - n) * (p - p0)) * Real.exp p / Real.exp p0 = Real.exp (-n * p0) / Real.exp (-n * p) := by
+    rw [div_eq_div_iff (Real.exp_pos _).ne' (Real.exp_pos _).ne', ← Real.exp_add, ← Real.exp_add, ← Real.exp_add]
+    congr 1; ring
+  rw [e]
+  have h1 := (Real.exp_pos (-n * p)).ne'
+  have h2 := (Real.exp_pos (-n * p0)).ne'
+  field_simp
+
+/-- **Prescribed scale on the first standard parallel**: with the `_k0` that `Init` computes from `k1`, the scale
+    `Forward` returns on that parallel is `k1` — for every cone constant (an identity of the two coded expressions). -/
+theorem lcc_scale_on_parallel1 (k1 scbet0 tchi0 scchi0 n nc scbet1 tchi1 scchi1 : ℝ)
+    (hb0 : scbet0 ≠ 0) (hb1 : scbet1 ≠ 0) (he : epPsi tchi1 scchi1 ≠ 0) (h0 : scchi0 + tchi0 ≠ 0) :
+    lccK (lccK0 k1 scbet0 tchi0 scchi0 n nc scbet1 tchi1 scchi1) scbet0 tchi0 scchi0 n nc scbet1 tchi1 scchi1
+      (Dasinh tchi1 tchi0 scchi1 scchi0 * (tchi1 - tchi0)) = k1 := by
+  unfold lccK lccK0
+  simp only [exp_real]
+  have e : ∀ c D d : ℝ, c * (D * d) = c * D * d := fun c D d => by ring
+  rw [e]
+  field_simp
+
+/-- the coded `dpsi` of `Forward` is `ψ − ψ0` -/
+theorem lcc_dpsi (tchi tchi0 : ℝ) :
+    Dasinh tchi tchi0 (hyp tchi) (hyp tchi0) * (tchi - tchi0) = Real.arsinh tchi - Real.arsinh tchi0 := by
+  by_cases h : tchi = tchi0
+  · rw [h]; simp
+  · rw [Dasinh_dd _ _ h]
+    have : tchi - tchi0 ≠ 0 := sub_ne_zero.mpr h
+    field_simp
+
+/-- **`Reverse` recovers `drho`** (both conic classes): from `x = ρ sin θ`, `y = ρ0 − ρ cos θ` the coded expression
+    `(x·nx + y·(ny − 2 nρ0)) / (hypot(nx, nρ0 − ny) + nρ0)` is `ρ − ρ0` (`n > 0`, `ρ > 0`, `ρ0 ≥ 0`). -/
+theorem cone_reverse_drho (n ρ ρ0 s c : ℝ) (hn : 0 < n) (hρ : 0 < ρ) (hρ0 : 0 ≤ ρ0) (hsc : s ^ 2 + c ^ 2 = 1) :
+    let x := ρ * s
+    let y := ρ0 - ρ * c
+    coneDrhoRev (n * ρ0) (n * x) (n * y) x y (RealLike.hypot (n * x) (n * ρ0 - n * y) + n * ρ0) = ρ - ρ0 := by
+  intro x y
+  have hh : RealLike.hypot (n * x) (n * ρ0 - n * y) = n * ρ := by
+    rw [hypot_real]
+    have : (n * x) ^ 2 + (n * ρ0 - n * y) ^ 2 = (n * ρ) ^ 2 := by
+      simp only [x, y]
+      linear_combination (n ^ 2 * ρ ^ 2) * hsc
+    rw [this]
+    exact Real.sqrt_sq (by positivity)
+  unfold coneDrhoRev
+  rw [hh]
+  simp only [two_real, x, y]
+  have hden : n * ρ + n * ρ0 ≠ 0 := by positivity
+  rw [div_eq_iff hden]
+  linear_combination (n * ρ ^ 2) * hsc
+
+/-- **LCC `Reverse` recovers `dpsi`**: with `t0nm1 = e^{−nψ0} − 1`, `drho = (scale/n)(e^{−nψ} − e^{−nψ0})`, the coded
+    `tnm1 = t0nm1 + n drho/scale` is `e^{−nψ} − 1` and `−Dlog1p(tnm1, t0nm1)·drho/scale = ψ − ψ0`. -/
+theorem lcc_reverse_dpsi (scale n psi psi0 : ℝ) (hn : n ≠ 0) (hs : scale ≠ 0) (hne : psi ≠ psi0) :
+    let drho := scale / n * (Real.exp (-n * psi) - Real.exp (-n * psi0))
+    let t0nm1 := expm1 (-n * psi0)
+    let tnm1 := t0nm1 + n * drho / scale
+    tnm1 = Real.exp (-n * psi) - 1 ∧ lccDpsiRev t0nm1 scale tnm1 drho = psi - psi0 := by
+  intro drho t0nm1 tnm1
+  have ht : tnm1 = Real.exp (-n * psi) - 1 := by
+    simp only [tnm1, t0nm1, drho, expm1_real]
+    field_simp
+    ring
+  refine ⟨ht, ?_⟩
+  unfold lccDpsiRev
+  have h0 : t0nm1 = Real.exp (-n * psi0) - 1 := by simp only [t0nm1, expm1_real]
+  have hx : -1 < tnm1 := by rw [ht]; linarith [Real.exp_pos (-n * psi)]
+  have hy : -1 < t0nm1 := by rw [h0]; linarith [Real.exp_pos (-n * psi0)]
+  have hexp : Real.exp (-n * psi) ≠ Real.exp (-n * psi0) := by
+    intro h
+    have := Real.exp_injective h
+    apply hne
+    have h' : n * (psi - psi0) = 0 := by linarith
+    rcases mul_eq_zero.mp h' with h'' | h''
+    · exact absurd h'' hn
+    · linarith
+  have hxy : tnm1 ≠ t0nm1 := by
+    rw [ht, h0]
+    intro h
+    apply hexp
+    linarith
+  rw [Dlog1p_dd _ _ hx hy hxy, ht, h0]
+  have e1 : (1 : ℝ) + (Real.exp (-n * psi) - 1) = Real.exp (-n * psi) := by ring
+  have e2 : (1 : ℝ) + (Real.exp (-n * psi0) - 1) = Real.exp (-n * psi0) := by ring
+  rw [e1, e2, Real.log_exp, Real.log_exp]
+  have hd : Real.exp (-n * psi) - 1 - (Real.exp (-n * psi0) - 1) ≠ 0 := by
+    intro h
+    apply hexp
+    linarith
+  simp only [drho]
+  have hd' : Real.exp (-n * psi) - Real.exp (-n * psi0) ≠ 0 := sub_ne_zero.mpr hexp
+  generalize Real.exp (-n * psi) = A at hd' ⊢
+  generalize Real.exp (-n * psi0) = B at hd' ⊢
+  have e3 : A - 1 - (B - 1) = A - B := by ring
+  rw [e3]
+  field_simp
+  ring
+
+/-- **LCC `Reverse`, `2n ≤ 1`**: `tchi0 + Dsinh(…)·dpsi = sinh ψ` -/
+theorem lcc_reverse_tchiA (psi psi0 : ℝ) :
+    lccTchiA psi0 (Real.sinh psi0) (Real.cosh psi0) (psi - psi0) = Real.sinh psi := by
+  unfold lccTchiA
+  simp only [sinh_real]
+  have e : psi0 + (psi - psi0) = psi := by ring
+  rw [e, hyp_sinh]
+  by_cases h : psi = psi0
+  · rw [h]; simp
+  · rw [Dsinh_dd _ _ h]
+    have : psi - psi0 ≠ 0 := sub_ne_zero.mpr h
+    field_simp
+    ring
+
+/-- **LCC `Reverse`, `2n > 1`**: from `tn = e^{−nψ}` the coded combination of `sinh((1−n)ψ)` and `tn ± 1/tn` is `sinh ψ` -/
+theorem lcc_reverse_tchiB (n nc psi : ℝ) (hn : n ≠ 0) (h1n : 1 + n ≠ 0) (hnc : nc ^ 2 = (1 - n) * (1 + n)) :
+    lccTchiB n nc (Real.exp (-n * psi) - 1) (Real.exp (-n * psi)) = Real.sinh psi := by
+  unfold lccTchiB
+  have hlog : (if RealLike.ltb (1 : ℝ) (2 * Real.exp (-n * psi)) then log1p (Real.exp (-n * psi) - 1) else RealLike.log (Real.exp (-n * psi))) = -n * psi := by
+    split
+    · rw [log1p_real]
+      have : (1 : ℝ) + (Real.exp (-n * psi) - 1) = Real.exp (-n * psi) := by ring
+      rw [this, Real.log_exp]
+    · rw [log_real, Real.log_exp]
+  simp only [one_real, two_real] at hlog ⊢
+  rw [hlog]
+  simp only [sq_real, sinh_real]
+  have harg : -(nc ^ 2) / (n * (1 + n)) * (-n * psi) = (1 - n) * psi := by
+    rw [hnc]; field_simp
+  rw [harg, hyp_sinh]
+  have hE := Real.exp_pos (-n * psi)
+  have hs : Real.sinh (n * psi) = (1 / Real.exp (-n * psi) - Real.exp (-n * psi)) / 2 := by
+    rw [Real.sinh_eq, one_div, ← Real.exp_neg]; congr 2 <;> ring_nf
+  have hc : Real.cosh (n * psi) = (Real.exp (-n * psi) + 1 / Real.exp (-n * psi)) / 2 := by
+    rw [Real.cosh_eq, one_div, ← Real.exp_neg]
+    have : -(-n * psi) = n * psi := by ring
+    rw [this, show -(n * psi) = -n * psi by ring]; ring
+  have hsum : Real.sinh psi = Real.sinh ((1 - n) * psi) * Real.cosh (n * psi) + Real.cosh ((1 - n) * psi) * Real.sinh (n * psi) := by
+    rw [← Real.sinh_add]; congr 1; ring
+  rw [hsum, hs, hc]
+  have hne := hE.ne'
+  field_simp
+  ring
+
+/-! ### Albers -/
+
+/-- the coded `dq` of `Forward` is `qZ (sin ξ − sin ξ0)` (`= q − q0`) -/
+theorem alb_dq (qZ txi txi0 : ℝ) :
+    albDq qZ txi (txi / hyp txi) txi0 (txi0 / hyp txi0) = qZ * (txi / hyp txi - txi0 / hyp txi0) := by
+  unfold albDq
+  by_cases h : txi = txi0
+  · rw [h]; simp
+  · rw [Dsn_dd _ _ h]
+    have : txi - txi0 ≠ 0 := sub_ne_zero.mpr h
+    field_simp
+
+/-- **Albers `Forward`: `drho = ρ − ρ0`.**  With `nrho0 = a √m0²`, the coded `−a dq/(√(m0² − n0 dq) + nrho0/a)` satisfies
+    `n0·drho = a(√(m0² − n0 dq) − √m0²)`: Snyder's `ρ = a √(C − n q)/n` with `C − n q0 = m0²`, so `drho = ρ − ρ0`. -/
+theorem alb_drho_closed (a m02 n0 dq : ℝ) (ha : a ≠ 0) (hm : 0 < m02) (hW : 0 ≤ m02 - n0 * dq) :
+    n0 * albDrho a m02 n0 (a * Real.sqrt m02) dq = a * (Real.sqrt (m02 - n0 * dq) - Real.sqrt m02) := by
+  unfold albDrho
+  simp only [fmax_real, zero_real, sqrt_real, max_eq_right hW]
+  have e : a * Real.sqrt m02 / a = Real.sqrt m02 := by field_simp
+  rw [e]
+  have hsW := Real.sq_sqrt hW
+  have hsm := Real.sq_sqrt hm.le
+  have hpm : 0 < Real.sqrt m02 := Real.sqrt_pos.mpr hm
+  have hpW : 0 ≤ Real.sqrt (m02 - n0 * dq) := Real.sqrt_nonneg _
+  have hden : Real.sqrt (m02 - n0 * dq) + Real.sqrt m02 ≠ 0 := by positivity
+  set w := Real.sqrt (m02 - n0 * dq)
+  set m := Real.sqrt m02
+  field_simp
+  linear_combination hsm - hsW
+
+/-- **Albers `Reverse`: `dsxia = scxi0 (sin ξ − sin ξ0)`** from the `drho` of `Forward` -/
+theorem alb_reverse_dsxia (a qZ scxi0 m02 n0 dq : ℝ) (ha : a ≠ 0) (hq : qZ ≠ 0) (hm : 0 < m02) (hW : 0 ≤ m02 - n0 * dq) :
+    albDsxia a qZ scxi0 (a * Real.sqrt m02) n0 (albDrho a m02 n0 (a * Real.sqrt m02) dq) = scxi0 * dq / qZ := by
+  have h1 := alb_drho_closed a m02 n0 dq ha hm hW
+  have hsW := Real.sq_sqrt hW
+  have hsm := Real.sq_sqrt hm.le
+  have hpm : 0 < Real.sqrt m02 := Real.sqrt_pos.mpr hm
+  have hpW : 0 ≤ Real.sqrt (m02 - n0 * dq) := Real.sqrt_nonneg _
+  have hden : Real.sqrt (m02 - n0 * dq) + Real.sqrt m02 ≠ 0 := by positivity
+  have h2 : albDrho a m02 n0 (a * Real.sqrt m02) dq = -(a * dq) / (Real.sqrt (m02 - n0 * dq) + Real.sqrt m02) := by
+    unfold albDrho
+    simp only [fmax_real, zero_real, sqrt_real, max_eq_right hW]
+    have e : a * Real.sqrt m02 / a = Real.sqrt m02 := by field_simp
+    rw [e]
+  unfold albDsxia
+  simp only [two_real, sq_real]
+  rw [h1, h2]
+  field_simp
+  ring
+
+/-- **Albers `Reverse` recovers `tan ξ`**: from `dsxia = scxi0 (sin ξ − sin ξ0)` the coded quotient is `tan ξ`
+    (as long as `cos² ξ / cos² ξ0` is above the `epsx²` guard) -/
+theorem alb_reverse_txi (txi txi0 : ℝ) (hε : RealLike.sq (epsx : ℝ) ≤ hyp txi0 ^ 2 / hyp txi ^ 2) :
+    albTxiRev txi0 (hyp txi0 * (txi / hyp txi - txi0 / hyp txi0)) = txi := by
+  have h := hyp_sq txi; have h0 := hyp_sq txi0
+  have p := hyp_pos txi; have p0 := hyp_pos txi0
+  unfold albTxiRev
+  simp only [fmax_real, one_real, two_real, sqrt_real]
+  have e1 : txi0 + hyp txi0 * (txi / hyp txi - txi0 / hyp txi0) = hyp txi0 * txi / hyp txi := by field_simp; ring
+  have e2 : 1 - hyp txi0 * (txi / hyp txi - txi0 / hyp txi0) * (2 * txi0 + hyp txi0 * (txi / hyp txi - txi0 / hyp txi0)) =
+      hyp txi0 ^ 2 / hyp txi ^ 2 := by
+    field_simp
+    ring_nf
+    rw [h, h0]
+    ring
+  rw [e1, e2, max_eq_right hε]
+  have e3 : Real.sqrt (hyp txi0 ^ 2 / hyp txi ^ 2) = hyp txi0 / hyp txi := by
+    rw [← div_pow, Real.sqrt_sq (by positivity)]
+  rw [e3]
+  field_simp
+
+example : RealLike.sq (epsx : ℝ) ≤ hyp 0 ^ 2 / hyp 1 ^ 2 := by
+  rw [hyp_sq, hyp_sq]
+  simp only [epsx, eps, sq_real, one_real, ofNat_real]
+  norm_num
+
+/-- **Equal-area bookkeeping (the invariant the seeded change C11B breaks)**: `SetScale` keeps `_k2 = _k0²` -/
+theorem alb_setscale_k2 (A : ALB ℝ) (kold k : ℝ) : (albSetScale A kold k).k2 = (albSetScale A kold k).k0 ^ 2 := by
+  simp [albSetScale]
+
+/-- with `_k2 = _k0²` the east-west factor `(k2 n0)/k0` of `θ = k2 n0 λ`, `x = ρ sin θ / k0` times the north-south factor
+    `1/k0` is the unscaled cone constant `n0`: rescaling by `k0` preserves area -/
+theorem alb_area_factor (k0 n0 : ℝ) (hk : k0 ≠ 0) : (RealLike.sq k0 * n0 / k0) * (1 / k0) = n0 := by
+  simp only [sq_real]
+  field_simp
+
+/-- after `SetScale(lat, k)` the scale `Forward` returns at `lat` is `k` (the scale is linear in `_k0`) -/
+theorem alb_setscale_scale (A : ALB ℝ) (kold k t scbet a : ℝ) (hkold : kold = A.k0 * (t * scbet / a)) (hk : kold ≠ 0) :
+    (albSetScale A kold k).k0 * (t * scbet / a) = k := by
+  simp only [albSetScale]
+  have h0 : A.k0 ≠ 0 := by
+    intro h; apply hk; rw [hkold, h]; ring
+  have h1 : t * scbet / a ≠ 0 := by
+    intro h; apply hk; rw [hkold, h]; ring
+  have ha : a ≠ 0 := by intro h; apply h1; rw [h]; simp
+  have ht : t ≠ 0 := by intro h; apply h1; rw [h]; simp
+  have hb : scbet ≠ 0 := by intro h; apply h1; rw [h]; simp
+  rw [hkold]
+  field_simp
+
+/-- the coded numerator of `Reverse` in the Albers form `k0 x nx − 2 k0 y nρ0 + k0 y ny` is the shared one in `X = k0 x`, `Y = k0 y` -/
+theorem alb_reverse_drho (k0 n ρ ρ0 s c : ℝ) (hk : k0 ≠ 0) (hn : 0 < n) (hρ : 0 < ρ) (hρ0 : 0 ≤ ρ0) (hsc : s ^ 2 + c ^ 2 = 1) :
+    let x := ρ * s / k0
+    let y := (ρ0 - ρ * c) / k0
+    (k0 * x * (k0 * n * x) - 2 * k0 * y * (n * ρ0) + k0 * y * (k0 * n * y)) /
+      (RealLike.hypot (k0 * n * x) (n * ρ0 - k0 * n * y) + n * ρ0) = ρ - ρ0 := by
+  intro x y
+  have h := cone_reverse_drho n ρ ρ0 s c hn hρ hρ0 hsc
+  simp only [coneDrhoRev, two_real] at h
+  have ex : k0 * n * x = n * (ρ * s) := by simp only [x]; field_simp
+  have ey : k0 * n * y = n * (ρ0 - ρ * c) := by simp only [y]; field_simp
+  have e1 : k0 * x = ρ * s := by simp only [x]; field_simp
+  have e2 : k0 * y = ρ0 - ρ * c := by simp only [y]; field_simp
+  rw [ex, ey, ← h]
+  congr 1
+  rw [e1, mul_assoc 2 k0 y, e2]
+  ring
+
+/-- **Albers `Reverse ∘ Forward = id` on the kernel level**, for any inversion `tphif` of `txif`: for a consistent member
+    set (`nrho0 = a √m0²`, `scxi0 = hyp txi0`, `sxi0 = txi0/scxi0`, `n0 > 0`, `k0 ≠ 0`) and a point whose radius
+    `ρ = (nrho0 + n0 drho)/n0` is positive, `Reverse` applied to the `(x, y)` of `Forward` recovers `drho`, `tan ξ` and
+    `tan φ` exactly.  (The longitude comes back through `atan2(ρ sin θ, ρ cos θ)`, which is not unfolded here.) -/
+theorem alb_reverse_forward_kernel (tphif : ℝ → ℝ) (E : Ell ℝ) (A : ALB ℝ) (sphi cphi lam : ℝ)
+    (hc : (epsx : ℝ) ≤ cphi) (htphif : tphif (txif E (sphi / cphi)) = sphi / cphi)
+    (ha : E.a ≠ 0) (hq : E.qZ ≠ 0) (hk : A.k0 ≠ 0) (hn : 0 < A.n0) (hm : 0 < A.m02)
+    (hnr : A.nrho0 = E.a * Real.sqrt A.m02) (hs0 : A.scxi0 = hyp A.txi0) (hx0 : A.sxi0 = A.txi0 / hyp A.txi0)
+    (hW : 0 ≤ A.m02 - A.n0 * albDq E.qZ (txif E (sphi / cphi)) (txif E (sphi / cphi) / hyp (txif E (sphi / cphi))) A.txi0 A.sxi0)
+    (hρ : 0 < A.nrho0 + A.n0 * albDrho E.a A.m02 A.n0 A.nrho0
+            (albDq E.qZ (txif E (sphi / cphi)) (txif E (sphi / cphi) / hyp (txif E (sphi / cphi))) A.txi0 A.sxi0))
+    (hr0 : 0 ≤ A.nrho0)
+    (hε : RealLike.sq (epsx : ℝ) ≤ hyp A.txi0 ^ 2 / hyp (txif E (sphi / cphi)) ^ 2) :
+    let o := albForward E A sphi cphi lam
+    let r := albReverse tphif E A o.x o.y
+    r.drho = albDrho E.a A.m02 A.n0 A.nrho0
+        (albDq E.qZ (txif E (sphi / cphi)) (txif E (sphi / cphi) / hyp (txif E (sphi / cphi))) A.txi0 A.sxi0)
+      ∧ r.txi = txif E (sphi / cphi) ∧ r.tphi = sphi / cphi := by
+  intro o r
+  have hcmax : fmax (epsx : ℝ) cphi = cphi := by rw [fmax_real]; exact max_eq_right hc
+  have hn0 : A.n0 ≠ 0 := hn.ne'
+  generalize htxi : txif E (sphi / cphi) = txi at *
+  generalize hdq : albDq E.qZ txi (txi / hyp txi) A.txi0 A.sxi0 = dq at *
+  generalize hdrho : albDrho E.a A.m02 A.n0 A.nrho0 dq = drho at *
+  generalize hθ : A.k2 * A.n0 * lam = θ at *
+  have hsc : Real.sin θ ^ 2 + Real.cos θ ^ 2 = 1 := Real.sin_sq_add_cos_sq θ
+  obtain ⟨ρ0, hρ0⟩ : ∃ ρ0, ρ0 = A.nrho0 / A.n0 := ⟨_, rfl⟩
+  have hnr0 : A.nrho0 = A.n0 * ρ0 := by rw [hρ0]; field_simp
+  have hρ0nn : 0 ≤ ρ0 := by rw [hρ0]; exact div_nonneg hr0 hn.le
+  have hρpos : 0 < ρ0 + drho := by
+    have : ρ0 + drho = (A.nrho0 + A.n0 * drho) / A.n0 := by rw [hρ0]; field_simp
+    rw [this]; exact div_pos hρ hn
+  have hxy := cone_xy_closed A.n0 ρ0 drho (Real.sin θ) (Real.cos θ) lam hn0 hsc
+  -- the outputs of Forward
+  have hox : o.x = (ρ0 + drho) * Real.sin θ / A.k0 := by
+    simp only [o, albForward, hcmax, eqb_real, zero_real, hn0, decide_false, Bool.not_false, if_true, sin_real, htxi, hdq, hdrho, hθ]
+    rw [hnr0]
+    field_simp
+  have hoy : o.y = (ρ0 - (ρ0 + drho) * Real.cos θ) / A.k0 := by
+    simp only [o, albForward, hcmax, sin_real, cos_real, htxi, hdq, hdrho, hθ]
+    rw [hnr0, hxy.2]
+  -- Reverse
+  have ex : A.k0 * A.n0 * o.x = A.n0 * ((ρ0 + drho) * Real.sin θ) := by rw [hox]; field_simp
+  have ey : A.k0 * A.n0 * o.y = A.n0 * (ρ0 - (ρ0 + drho) * Real.cos θ) := by rw [hoy]; field_simp
+  have hh : RealLike.hypot (A.k0 * A.n0 * o.x) (A.nrho0 - A.k0 * A.n0 * o.y) = A.n0 * (ρ0 + drho) := by
+    rw [ex, ey, hnr0, hypot_real]
+    have e : (A.n0 * ((ρ0 + drho) * Real.sin θ)) ^ 2 + (A.n0 * ρ0 - A.n0 * (ρ0 - (ρ0 + drho) * Real.cos θ)) ^ 2
+        = (A.n0 * (ρ0 + drho)) ^ 2 := by
+      linear_combination (A.n0 ^ 2 * (ρ0 + drho) ^ 2) * hsc
+    rw [e, Real.sqrt_sq (by positivity)]
+  have hden : RealLike.hypot (A.k0 * A.n0 * o.x) (A.nrho0 - A.k0 * A.n0 * o.y) + A.nrho0 ≠ 0 := by
+    rw [hh, hnr0]; positivity
+  have hrd : r.drho = drho := by
+    simp only [r, albReverse, eqb_real, zero_real, two_real, hden, decide_false, Bool.not_false, if_true]
+    rw [hh, ex, ey, hnr0]
+    have e1 : A.k0 * o.x = (ρ0 + drho) * Real.sin θ := by rw [hox]; field_simp
+    have e2 : A.k0 * o.y = ρ0 - (ρ0 + drho) * Real.cos θ := by rw [hoy]; field_simp
+    rw [e1, mul_assoc 2 A.k0 o.y, e2]
+    have hd : A.n0 * (ρ0 + drho) + A.n0 * ρ0 ≠ 0 := by positivity
+    rw [div_eq_iff hd]
+    linear_combination (A.n0 * (ρ0 + drho) ^ 2) * hsc
+  have hdq' : dq = E.qZ * (txi / hyp txi - A.txi0 / hyp A.txi0) := by
+    rw [← hdq, hx0]; exact alb_dq E.qZ txi A.txi0
+  have hrt : r.txi = txi := by
+    have hrt0 : r.txi = albTxiRev A.txi0 (albDsxia E.a E.qZ A.scxi0 A.nrho0 A.n0 r.drho) := by
+      simp only [r, albReverse]
+    rw [hrt0, hrd, ← hdrho, hnr, alb_reverse_dsxia E.a E.qZ A.scxi0 A.m02 A.n0 dq ha hq hm hW, hs0, hdq']
+    have e : hyp A.txi0 * (E.qZ * (txi / hyp txi - A.txi0 / hyp A.txi0)) / E.qZ = hyp A.txi0 * (txi / hyp txi - A.txi0 / hyp A.txi0) := by
+      field_simp
+    rw [e]
+    exact alb_reverse_txi txi A.txi0 hε
+  refine ⟨hrd, hrt, ?_⟩
+  have hrp : r.tphi = tphif r.txi := by simp only [r, albReverse]
+  rw [hrp, hrt]
+  exact htphif
+
+/-- **LCC `Reverse ∘ Forward = id` on the kernel level**, for any inversion `tauf` of the conformal-tangent map: for a
+    consistent member set (`n > 0`, `n² + nc² = 1`, `t0nm1 = e^{−nψ0} − 1`, `tchi0 = sinh ψ0`, `scchi0 = cosh ψ0`) and a point
+    with `ψ ≠ ψ0`, positive radius and `drho` below the `_drhomax` clamp, `Reverse` applied to the `(x, y)` of `Forward`
+    recovers `drho`, `dpsi = ψ − ψ0`, `tan χ` (either branch `2n ≤ 1` / `2n > 1`) and `tan φ` exactly.  (The longitude
+    comes back through `atan2(ρ sin θ, ρ cos θ)/n`, not unfolded here; `ψ = ψ0` is the origin parallel.) -/
+theorem lcc_reverse_forward_kernel (tauf : ℝ → ℝ → ℝ) (E : Ell ℝ) (L : LCC ℝ) (sphi cphi lam psi0 : ℝ)
+    (hc : (epsx : ℝ) ≤ cphi)
+    (htauf : tauf (tchiOf E.es sphi (sphi / cphi) (1 / cphi)) E.es = sphi / cphi)
+    (hn : 0 < L.n) (hnc : L.nc ^ 2 = (1 - L.n) * (1 + L.n)) (hs : L.scale ≠ 0)
+    (ht0 : L.t0nm1 = expm1 (-L.n * psi0)) (hp0 : L.psi0 = psi0) (htc0 : L.tchi0 = Real.sinh psi0)
+    (hsc0 : L.scchi0 = Real.cosh psi0) (hr0 : 0 ≤ L.nrho0)
+    (hne : Real.arsinh (tchiOf E.es sphi (sphi / cphi) (1 / cphi)) ≠ psi0)
+    (hρ : 0 < L.nrho0 + L.n * (L.scale / L.n *
+        (Real.exp (-L.n * Real.arsinh (tchiOf E.es sphi (sphi / cphi) (1 / cphi))) - Real.exp (-L.n * psi0))))
+    (hmax : L.scale / L.n * (Real.exp (-L.n * Real.arsinh (tchiOf E.es sphi (sphi / cphi) (1 / cphi))) - Real.exp (-L.n * psi0)) ≤ L.drhomax) :
+    let o := lccForward E L sphi cphi lam
+    let r := lccReverse tauf E L o.x o.y
+    r.drho = L.scale / L.n * (Real.exp (-L.n * Real.arsinh (tchiOf E.es sphi (sphi / cphi) (1 / cphi))) - Real.exp (-L.n * psi0))
+      ∧ r.dpsi = Real.arsinh (tchiOf E.es sphi (sphi / cphi) (1 / cphi)) - psi0
+      ∧ r.tchi = tchiOf E.es sphi (sphi / cphi) (1 / cphi) ∧ r.tphi = sphi / cphi := by
+  intro o r
+  have hcmax : fmax (epsx : ℝ) cphi = cphi := by rw [fmax_real]; exact max_eq_right hc
+  have hn0 : L.n ≠ 0 := hn.ne'
+  have h1n : 1 + L.n ≠ 0 := by linarith
+  generalize htchi : tchiOf E.es sphi (sphi / cphi) (1 / cphi) = tchi at *
+  obtain ⟨psi, hpsi⟩ : ∃ psi, psi = Real.arsinh tchi := ⟨_, rfl⟩
+  rw [← hpsi] at hne hρ hmax ⊢
+  obtain ⟨drho, hdrho⟩ : ∃ d, d = L.scale / L.n * (Real.exp (-L.n * psi) - Real.exp (-L.n * psi0)) := ⟨_, rfl⟩
+  rw [← hdrho] at hρ hmax ⊢
+  generalize hθ : L.n * lam = θ at *
+  have hsc : Real.sin θ ^ 2 + Real.cos θ ^ 2 = 1 := Real.sin_sq_add_cos_sq θ
+  obtain ⟨ρ0, hρ0⟩ : ∃ ρ0, ρ0 = L.nrho0 / L.n := ⟨_, rfl⟩
+  have hnr0 : L.nrho0 = L.n * ρ0 := by rw [hρ0]; field_simp
+  have hρ0nn : 0 ≤ ρ0 := by rw [hρ0]; exact div_nonneg hr0 hn.le
+  have hρpos : 0 < ρ0 + drho := by
+    have : ρ0 + drho = (L.nrho0 + L.n * drho) / L.n := by rw [hρ0]; field_simp
+    rw [this]; exact div_pos hρ hn
+  -- Forward: dpsi and drho in closed form
+  have hsc0' : L.scchi0 = hyp L.tchi0 := by rw [hsc0, htc0, hyp_sinh]
+  have hdpsiF : Dasinh tchi L.tchi0 (hyp tchi) L.scchi0 * (tchi - L.tchi0) = psi - psi0 := by
+    rw [hsc0', lcc_dpsi, htc0, Real.arsinh_sinh, hpsi]
+  have hdrhoF : lccDrho L.scale L.n L.nc L.t0nm1 L.psi0 tchi (hyp tchi) (Real.arsinh tchi) (psi - psi0) = drho := by
+    rw [ht0, hp0, hpsi, lcc_drho_closed L.scale L.n L.nc psi0 tchi hn0 h1n hnc, hdrho, hpsi]
+  have hxy := cone_xy_closed L.n ρ0 drho (Real.sin θ) (Real.cos θ) lam hn0 hsc
+  have hox : o.x = (ρ0 + drho) * Real.sin θ := by
+    simp only [o, lccForward, hcmax, sin_real, asinh_real, one_real, htchi, hdpsiF, hdrhoF, hθ]
+    rw [hnr0, hxy.1]
+  have hoy : o.y = ρ0 - (ρ0 + drho) * Real.cos θ := by
+    simp only [o, lccForward, hcmax, sin_real, cos_real, asinh_real, one_real, htchi, hdpsiF, hdrhoF, hθ]
+    rw [hnr0, hxy.2]
+  -- Reverse
+  have hdr := cone_reverse_drho L.n (ρ0 + drho) ρ0 (Real.sin θ) (Real.cos θ) hn hρpos hρ0nn hsc
+  try simp only at hdr
+  have hh : RealLike.hypot (L.n * o.x) (L.nrho0 - L.n * o.y) = L.n * (ρ0 + drho) := by
+    rw [hox, hoy, hnr0, hypot_real]
+    have e : (L.n * ((ρ0 + drho) * Real.sin θ)) ^ 2 + (L.n * ρ0 - L.n * (ρ0 - (ρ0 + drho) * Real.cos θ)) ^ 2
+        = (L.n * (ρ0 + drho)) ^ 2 := by
+      linear_combination (L.n ^ 2 * (ρ0 + drho) ^ 2) * hsc
+    rw [e, Real.sqrt_sq (by positivity)]
+  have hden : RealLike.hypot (L.n * o.x) (L.nrho0 - L.n * o.y) + L.nrho0 ≠ 0 := by
+    rw [hh, hnr0]; positivity
+  have hclamp : ¬ (L.drhomax < drho) := not_lt.mpr hmax
+  have hrd : r.drho = drho := by
+    simp only [r, lccReverse, eqb_real, ltb_real, zero_real, hn0, hden, isfin_real, decide_false, Bool.not_false, Bool.and_self,
+      if_true, Bool.false_eq_true, if_false]
+    rw [← hox, ← hoy, ← hnr0] at hdr
+    rw [hdr]
+    have e : ρ0 + drho - ρ0 = drho := by ring
+    rw [e]
+    simp only [hclamp, decide_false, Bool.false_eq_true, if_false]
+  obtain ⟨htn, hdp⟩ := lcc_reverse_dpsi L.scale L.n psi psi0 hn0 hs hne
+  try simp only at htn hdp
+  rw [← hdrho, ← ht0] at htn hdp
+  have hpos : ¬ (L.t0nm1 + L.n * drho / L.scale + 1 ≤ 0) := by
+    rw [htn]; have := Real.exp_pos (-L.n * psi); linarith
+  have hrdp : r.dpsi = psi - psi0 := by
+    have h0 : r.dpsi = (if RealLike.eqb (RealLike.hypot (L.n * o.x) (L.nrho0 - L.n * o.y) + L.nrho0) 0 then 0
+        else if !(RealLike.leb (L.t0nm1 + L.n * r.drho / L.scale + 1) 0) then lccDpsiRev L.t0nm1 L.scale (L.t0nm1 + L.n * r.drho / L.scale) r.drho
+        else ahypover) := by
+      simp only [r, lccReverse, eqb_real, hn0, decide_false, Bool.not_false, if_true, zero_real, one_real]
+    rw [h0, hrd]
+    simp only [eqb_real, leb_real, zero_real, one_real, hden, hpos, decide_false, Bool.not_false, if_true, Bool.false_eq_true, if_false]
+    exact hdp
+  have hrt : r.tchi = tchi := by
+    have h0 : r.tchi = (if RealLike.leb (2 * L.n) 1 then lccTchiA L.psi0 L.tchi0 L.scchi0 r.dpsi
+        else lccTchiB L.n L.nc (L.t0nm1 + L.n * r.drho / L.scale)
+          (if RealLike.leb (L.t0nm1 + L.n * r.drho / L.scale + 1) 0 then epsx else L.t0nm1 + L.n * r.drho / L.scale + 1)) := by
+      simp only [r, lccReverse, two_real, one_real, zero_real]
+    rw [h0, hrdp, hrd]
+    have hsinh : Real.sinh psi = tchi := by rw [hpsi, Real.sinh_arsinh]
+    by_cases hb : 2 * L.n ≤ 1
+    · simp only [leb_real, hb, decide_true, if_true]
+      rw [hp0, htc0, hsc0, lcc_reverse_tchiA, hsinh]
+    · simp only [leb_real, zero_real, hb, hpos, decide_false, Bool.false_eq_true, if_false]
+      rw [htn]
+      have e : Real.exp (-L.n * psi) - 1 + 1 = Real.exp (-L.n * psi) := by ring
+      rw [e, lcc_reverse_tchiB L.n L.nc psi hn0 h1n hnc, hsinh]
+  refine ⟨hrd, hrdp, hrt, ?_⟩
+  have hrp : r.tphi = tauf r.tchi E.es := by simp only [r, lccReverse]
+  rw [hrp, hrt]
+  exact htauf
+
+/-- `sn x = x/hyp x` is injective -/
+theorem sn_injective (x y : ℝ) (h : x / hyp x = y / hyp y) : x = y := by
+  have hx := hyp_sq x; have hy := hyp_sq y
+  have px := hyp_pos x; have py := hyp_pos y
+  have h1 : x * hyp y = y * hyp x := by
+    field_simp at h; linarith
+  have h2 : x ^ 2 = y ^ 2 := by
+    have : (x * hyp y) ^ 2 = (y * hyp x) ^ 2 := by rw [h1]
+    rw [mul_pow, mul_pow, hx, hy] at this
+    linarith
+  rcases sq_eq_sq_iff_eq_or_eq_neg.mp h2 with h3 | h3
+  · exact h3
+  · have hh : hyp x = hyp y := by
+      have : hyp x ^ 2 = hyp y ^ 2 := by rw [hx, hy, h2]
+      exact (pow_left_inj₀ px.le py.le (by norm_num)).mp this
+    rw [hh, h3] at h1
+    have : y * hyp y = 0 := by linarith
+    have hy0 : y = 0 := by
+      rcases mul_eq_zero.mp this with h' | h'
+      · exact h'
+      · exact absurd h' py.ne'
+    rw [h3, hy0]; simp
+
+/-- `tbet²/(1 + scbet) = scbet − 1` -/
+theorem sq_over_one_add_hyp (t : ℝ) : RealLike.sq t / (1 + hyp t) = hyp t - 1 := by
+  have h := hyp_sq t; have p := hyp_pos t
+  simp only [sq_real]
+  have : (1 : ℝ) + hyp t ≠ 0 := by positivity
+  field_simp
+  linear_combination -h
+
+/-- **The cone constant of the two-parallel `Init` is Snyder's (15-8)** (oblate ellipsoid): the divided-difference
+    quotient `num/den` equals `(ln sec β2 − ln sec β1)/(ψ2 − ψ1)` with `ψ = arsinh(tan φ) − e atanh(e sin φ)` the isometric
+    latitude, i.e. `(ln m1 − ln m2)/(ln t1 − ln t2)`. -/
+theorem lcc_n_snyder (E : Ell ℝ) (tphi1 tphi2 : ℝ) (h12 : tphi1 ≠ tphi2) (hes : 0 < E.es) (hes1 : E.es < 1)
+    (he2 : E.e2 = E.es ^ 2) (hfm : E.fm ≠ 0) :
+    (lccNraw E (tphi1 / hyp tphi1) tphi1 (hyp tphi1) (E.fm * tphi1) (hyp (E.fm * tphi1))
+        (tphi2 / hyp tphi2) tphi2 (hyp tphi2) (E.fm * tphi2) (hyp (E.fm * tphi2))).1 =
+      (Real.log (hyp (E.fm * tphi2)) - Real.log (hyp (E.fm * tphi1))) /
+        ((Real.arsinh tphi2 - eatanhe (tphi2 / hyp tphi2) E.es) - (Real.arsinh tphi1 - eatanhe (tphi1 / hyp tphi1) E.es)) := by
+  have hΔ : tphi2 - tphi1 ≠ 0 := sub_ne_zero.mpr (Ne.symm h12)
+  have h21 : tphi2 ≠ tphi1 := Ne.symm h12
+  set b1 := E.fm * tphi1 with hb1
+  set b2 := E.fm * tphi2 with hb2
+  have p1 := hyp_pos b1; have p2 := hyp_pos b2
+  have hb21 : b2 ≠ b1 := by
+    intro h; apply h21
+    have : E.fm * (tphi2 - tphi1) = 0 := by rw [hb1, hb2] at h; linarith
+    rcases mul_eq_zero.mp this with h' | h'
+    · exact absurd h' hfm
+    · linarith
+  -- numerator
+  have hnum : Dlog1p (RealLike.sq b2 / (1 + hyp b2)) (RealLike.sq b1 / (1 + hyp b1)) * Dhyp b2 b1 (hyp b2) (hyp b1) * E.fm =
+      (Real.log (hyp b2) - Real.log (hyp b1)) / (tphi2 - tphi1) := by
+    rw [sq_over_one_add_hyp, sq_over_one_add_hyp, Dhyp_dd _ _ hb21]
+    have hbb : b2 - b1 = E.fm * (tphi2 - tphi1) := by rw [hb1, hb2]; ring
+    by_cases hh : hyp b2 = hyp b1
+    · rw [hh]; simp
+    · have hx : (-1 : ℝ) < hyp b2 - 1 := by linarith
+      have hy : (-1 : ℝ) < hyp b1 - 1 := by linarith
+      have hne : hyp b2 - 1 ≠ hyp b1 - 1 := by intro h; apply hh; linarith
+      rw [Dlog1p_dd _ _ hx hy hne]
+      have e1 : (1 : ℝ) + (hyp b2 - 1) = hyp b2 := by ring
+      have e2 : (1 : ℝ) + (hyp b1 - 1) = hyp b1 := by ring
+      rw [e1, e2, hbb]
+      have hd : hyp b2 - 1 - (hyp b1 - 1) ≠ 0 := by intro h; apply hh; linarith
+      have hd2 : hyp b2 - hyp b1 ≠ 0 := sub_ne_zero.mpr hh
+      have e3 : hyp b2 - 1 - (hyp b1 - 1) = hyp b2 - hyp b1 := by ring
+      rw [e3]
+      field_simp
+  -- denominator
+  have hs21 : tphi2 / hyp tphi2 ≠ tphi1 / hyp tphi1 := fun h => h21 (sn_injective _ _ h)
+  have habs : ∀ t : ℝ, |E.es * (t / hyp t)| < 1 := by
+    intro t
+    have ht := abs_lt_hyp t
+    have hp := hyp_pos t
+    rw [abs_mul, abs_of_pos hes, abs_div, abs_of_pos hp]
+    have : |t| / hyp t < 1 := (div_lt_one hp).mpr ht
+    have h0 : 0 ≤ |t| / hyp t := by positivity
+    nlinarith
+  have hden : Dasinh tphi2 tphi1 (hyp tphi2) (hyp tphi1) - Deatanhe E.e2 E.es (tphi2 / hyp tphi2) (tphi1 / hyp tphi1) *
+        Dsn tphi2 tphi1 (tphi2 / hyp tphi2) (tphi1 / hyp tphi1) =
+      ((Real.arsinh tphi2 - eatanhe (tphi2 / hyp tphi2) E.es) - (Real.arsinh tphi1 - eatanhe (tphi1 / hyp tphi1) E.es)) / (tphi2 - tphi1) := by
+    rw [Dasinh_dd _ _ h21, he2, Deatanhe_dd_oblate E.es _ _ hes (habs tphi2) (habs tphi1) hs21, Dsn_dd _ _ h21]
+    have hsd : tphi2 / hyp tphi2 - tphi1 / hyp tphi1 ≠ 0 := sub_ne_zero.mpr hs21
+    field_simp
+    ring
+  unfold lccNraw
+  simp only [one_real] at hnum ⊢
+  rw [hnum, hden]
+  rw [div_div_div_cancel_right₀ hΔ]
+
+example : (0 : ℝ) < (⟨1, 1 / 2⟩ : Ell ℝ).fm ∧ (⟨1, 1 / 2⟩ : Ell ℝ).e2 = 3 / 4 := by
+  simp only [Ell.fm, Ell.e2, one_real, two_real]
+  norm_num
+
+/-- `atanh` (as `½ log((1+u)/(1−u))`) is odd on `(−1, 1)` -/
+theorem atanh_odd (u : ℝ) (hu : |u| < 1) : Real.log ((1 + -u) / (1 - -u)) / 2 = -(Real.log ((1 + u) / (1 - u)) / 2) := by
+  obtain ⟨h1, h2⟩ := abs_lt.mp hu
+  have p1 : 0 < 1 + u := by linarith
+  have p2 : 0 < 1 - u := by linarith
+  have e : (1 + -u) / (1 - -u) = ((1 + u) / (1 - u))⁻¹ := by
+    rw [inv_div]; congr 1 <;> ring
+  rw [e, Real.log_inv]; ring
+
+/-- `Datanhee` (oblate) is the divided difference of `atanhee x = atanh(e x)/e` -/
+theorem Datanhee_dd_oblate (f e x y : ℝ) (hf : 0 < f) (he : 0 < e) (hx : |e * x| < 1) (hy : |e * y| < 1) (hxy : x ≠ y) :
+    Datanhee f (e ^ 2) e x y = (atanhee f e x - atanhee f e y) / (x - y) := by
+  have h2 : x - y ≠ 0 := sub_ne_zero.mpr hxy
+  unfold Datanhee atanhee
+  simp only [eqb_real, ltb_real, zero_real, one_real, atanh_real, hf, h2, decide_true, decide_false, if_true, Bool.false_eq_true, if_false]
+  by_cases hneg : x * y < 0
+  · simp only [hneg, decide_true, if_true]
+  · simp only [hneg, decide_false, Bool.false_eq_true, if_false]
+    have earg : e * ((x - y) / (1 - e ^ 2 * x * y)) = (e * x - e * y) / (1 - e * x * (e * y)) := by
+      have : 1 - e ^ 2 * x * y = 1 - e * x * (e * y) := by ring
+      rw [this]; ring
+    rw [earg, atanh_sub (e * x) (e * y) hx hy]
+    have hene : e ≠ 0 := he.ne'
+    field_simp
+
+/-- **`txif` is the authalic tangent** (oblate ellipsoid): with `Q(s) = s/(1 − e² s²) + atanh(e s)/e` (so `q = (1−e²) Q`) and
+    `QZ = Q(1)`, the coded expression is `Q/√(QZ² − Q²)`, i.e. `tan ξ` for `sin ξ = q/qZ`. -/
+theorem txif_closed (E : Ell ℝ) (tphi : ℝ) (hf : 0 < E.f) (he2 : 0 < E.e2) (he21 : E.e2 < 1)
+    (hQ : (tphi / hyp tphi / (1 - E.e2 * (tphi / hyp tphi) ^ 2) + E.atanhee (tphi / hyp tphi)) ^ 2 <
+          (1 / E.e2m + E.atanhee 1) ^ 2) :
+    txif E tphi =
+      (tphi / hyp tphi / (1 - E.e2 * (tphi / hyp tphi) ^ 2) + E.atanhee (tphi / hyp tphi)) /
+        Real.sqrt ((1 / E.e2m + E.atanhee 1) ^ 2 -
+          (tphi / hyp tphi / (1 - E.e2 * (tphi / hyp tphi) ^ 2) + E.atanhee (tphi / hyp tphi)) ^ 2) := by
+  have hh := hyp_sq tphi; have hp := hyp_pos tphi; have hlt := abs_lt_hyp tphi
+  -- the eccentricity
+  have hepos : 0 < E.e := by
+    unfold Ell.e; simp only [sqrt_real, abs_real]
+    exact Real.sqrt_pos.mpr (abs_pos.mpr he2.ne')
+  have hesq : E.e ^ 2 = E.e2 := by
+    unfold Ell.e; simp only [sqrt_real, abs_real]
+    rw [Real.sq_sqrt (abs_nonneg _), abs_of_pos he2]
+  have he1 : E.e < 1 := by
+    by_contra h
+    have : 1 ≤ E.e := not_lt.mp h
+    have : 1 ≤ E.e ^ 2 := by nlinarith
+    rw [hesq] at this; linarith
+  have hem : 0 < E.e2m := by unfold Ell.e2m; simp only [one_real]; linarith
+  set s := tphi / hyp tphi with hs
+  clear_value s
+  have hem' : E.e2m = 1 - E.e2 := by unfold Ell.e2m; simp only [one_real]
+  have hemne : E.e2m ≠ 0 := hem.ne'
+  have hsabs : |s| < 1 := by
+    rw [hs, abs_div, abs_of_pos hp]; exact (div_lt_one hp).mpr hlt
+  obtain ⟨hs1, hs2⟩ := abs_lt.mp hsabs
+  have hes : |E.e * s| < 1 := by
+    rw [abs_mul, abs_of_pos hepos]
+    have := abs_nonneg s
+    nlinarith
+  have hens : |E.e * -s| < 1 := by rw [mul_neg, abs_neg]; exact hes
+  have he1' : |E.e * 1| < 1 := by rw [mul_one, abs_of_pos hepos]; exact he1
+  have hw : 0 < 1 - E.e2 * s ^ 2 := by
+    have : s ^ 2 < 1 := by nlinarith
+    nlinarith
+  -- cphi, sphi of the code
+  have hc : (1 : ℝ) / Real.sqrt (1 + tphi ^ 2) = 1 / hyp tphi := by rw [hyp_real]
+  have hcs : s ^ 2 + (1 / hyp tphi) ^ 2 = 1 := by
+    rw [hs]; field_simp; linarith
+  -- the two divided differences
+  have hD1 : E.Datanhee 1 s = (E.atanhee 1 - E.atanhee s) / (1 - s) := by
+    unfold Ell.Datanhee Ell.atanhee
+    rw [← hesq]
+    exact Datanhee_dd_oblate E.f E.e 1 s hf hepos he1' hes (by linarith)
+  have hodd : E.atanhee (-s) = -E.atanhee s := by
+    unfold Ell.atanhee atanhee
+    simp only [ltb_real, zero_real, hf, decide_true, if_true, atanh_real]
+    rw [mul_neg, atanh_odd _ hes]; ring
+  have hD2 : E.Datanhee 1 (-s) = (E.atanhee 1 + E.atanhee s) / (1 + s) := by
+    have : E.Datanhee 1 (-s) = (E.atanhee 1 - E.atanhee (-s)) / (1 - -s) := by
+      unfold Ell.Datanhee Ell.atanhee
+      rw [← hesq]
+      exact Datanhee_dd_oblate E.f E.e 1 (-s) hf hepos he1' hens (by linarith)
+    rw [this, hodd]; congr 1 <;> ring
+  set Q := s / (1 - E.e2 * s ^ 2) + E.atanhee s with hQdef
+  set QZ := 1 / E.e2m + E.atanhee 1 with hQZdef
+  clear_value Q QZ
+  have hpos : 0 < QZ ^ 2 - Q ^ 2 := by linarith
+  unfold txif
+  simp only [one_real, sq_real, sqrt_real]
+  rw [hc]
+  have hsp : tphi * (1 / hyp tphi) = s := by rw [hs]; ring
+  rw [hsp, hD1, hD2]
+  have hA : (1 + E.e2 * s) / (E.e2m * (1 - E.e2 * s * s)) + (E.atanhee 1 - E.atanhee s) / (1 - s) = (QZ - Q) / (1 - s) := by
+    rw [hQdef, hQZdef]
+    have h1s : (1 : ℝ) - s ≠ 0 := by linarith
+    have hw' : 1 - E.e2 * s * s ≠ 0 := by have : 1 - E.e2 * s * s = 1 - E.e2 * s ^ 2 := by ring
+                                          rw [this]; exact hw.ne'
+    have hw'' : 1 - E.e2 * s ^ 2 ≠ 0 := hw.ne'
+    field_simp
+    rw [hem']
+    ring
+  have hB : (1 - E.e2 * s) / (E.e2m * (1 - E.e2 * s * s)) + (E.atanhee 1 + E.atanhee s) / (1 + s) = (QZ + Q) / (1 + s) := by
+    rw [hQdef, hQZdef]
+    have h1s : (1 : ℝ) + s ≠ 0 := by linarith
+    have hw' : 1 - E.e2 * s * s ≠ 0 := by have : 1 - E.e2 * s * s = 1 - E.e2 * s ^ 2 := by ring
+                                          rw [this]; exact hw.ne'
+    have hw'' : 1 - E.e2 * s ^ 2 ≠ 0 := hw.ne'
+    field_simp
+    rw [hem']
+    ring
+  rw [hA, hB]
+  have hN : tphi / (1 - E.e2 * s * s) + E.atanhee s / (1 / hyp tphi) = Q * hyp tphi := by
+    rw [hQdef]
+    have hw' : 1 - E.e2 * s * s ≠ 0 := by have : 1 - E.e2 * s * s = 1 - E.e2 * s ^ 2 := by ring
+                                          rw [this]; exact hw.ne'
+    have hw'' : 1 - E.e2 * s ^ 2 ≠ 0 := hw.ne'
+    rw [hs]
+    field_simp
+  rw [hN]
+  have hprod : (QZ - Q) / (1 - s) * ((QZ + Q) / (1 + s)) = (QZ ^ 2 - Q ^ 2) * hyp tphi ^ 2 := by
+    have h1 : (1 : ℝ) - s ≠ 0 := by linarith
+    have h2 : (1 : ℝ) + s ≠ 0 := by linarith
+    have hc2 : (1 - s) * (1 + s) = (1 / hyp tphi) ^ 2 := by linear_combination -hcs
+    rw [div_mul_div_comm, hc2]
+    field_simp
+    ring
+  rw [hprod, Real.sqrt_mul hpos.le, Real.sqrt_sq hp.le]
+  have hsq : Real.sqrt (QZ ^ 2 - Q ^ 2) ≠ 0 := (Real.sqrt_pos.mpr hpos).ne'
+  field_simp
+
+/-! ### Non-vacuity of the kernel theorems' hypotheses -/
+
+example : ((4 / 5 : ℝ)) ^ 2 = (1 - 3 / 5) * (1 + 3 / 5) := by norm_num   -- `n² + nc² = 1`
+
+/-- sphere: `tchi = tphi` -/
+theorem tchiOf_sphere (s t c : ℝ) : tchiOf (⟨1, 0⟩ : Ell ℝ).es s t c = t := by
+  have hes : (⟨1, 0⟩ : Ell ℝ).es = 0 := by
+    simp [Ell.es, Ell.e2, ltb_real, zero_real, one_real, two_real]
+  rw [hes]
+  simp [tchiOf, eatanhe, ltb_real, zero_real, hyp_real]
+
+/-- `lcc_reverse_forward_kernel`: sphere, cone constant 3/5, point at latitude `atan(3/4)` -/
+example : ∃ (tauf : ℝ → ℝ → ℝ) (E : Ell ℝ) (L : LCC ℝ) (sphi cphi psi0 : ℝ),
+    (epsx : ℝ) ≤ cphi ∧ tauf (tchiOf E.es sphi (sphi / cphi) (1 / cphi)) E.es = sphi / cphi ∧ 0 < L.n ∧
+    L.nc ^ 2 = (1 - L.n) * (1 + L.n) ∧ L.scale ≠ 0 ∧ L.t0nm1 = expm1 (-L.n * psi0) ∧ L.psi0 = psi0 ∧ L.tchi0 = Real.sinh psi0 ∧
+    L.scchi0 = Real.cosh psi0 ∧ 0 ≤ L.nrho0 ∧ Real.arsinh (tchiOf E.es sphi (sphi / cphi) (1 / cphi)) ≠ psi0 ∧
+    0 < L.nrho0 + L.n * (L.scale / L.n * (Real.exp (-L.n * Real.arsinh (tchiOf E.es sphi (sphi / cphi) (1 / cphi))) - Real.exp (-L.n * psi0))) ∧
+    L.scale / L.n * (Real.exp (-L.n * Real.arsinh (tchiOf E.es sphi (sphi / cphi) (1 / cphi))) - Real.exp (-L.n * psi0)) ≤ L.drhomax := by
+  refine ⟨fun t _ => t, ⟨1, 0⟩, ⟨1, 3 / 5, 4 / 5, 0, 1, 0, 1, 1, 0, 1, 0, 1, 10⟩, 3 / 5, 4 / 5, 0, ?_, ?_, ?_, ?_, ?_, ?_, ?_, ?_, ?_, ?_, ?_, ?_, ?_⟩
+  · simp only [epsx, eps, sq_real, one_real, ofNat_real]; norm_num
+  · simp only [tchiOf_sphere]
+  · norm_num
+  · norm_num
+  · norm_num
+  · simp [expm1_real]
+  · rfl
+  · simp
+  · simp
+  · norm_num
+  · rw [tchiOf_sphere]
+    intro h
+    have := Real.arsinh_eq_zero_iff.mp h
+    norm_num at this
+  · rw [tchiOf_sphere]
+    have h := Real.exp_pos (-(3 / 5 : ℝ) * Real.arsinh (3 / 5 / (4 / 5)))
+    simp only [mul_zero, Real.exp_zero]
+    have e : (1 : ℝ) + 3 / 5 * (1 / (3 / 5) * (Real.exp (-(3 / 5) * Real.arsinh (3 / 5 / (4 / 5))) - 1)) = Real.exp (-(3 / 5) * Real.arsinh (3 / 5 / (4 / 5))) := by
+      field_simp; ring
+    rw [e]; exact h
+  · rw [tchiOf_sphere]
+    simp only [mul_zero, Real.exp_zero]
+    have hpos : 0 < Real.arsinh ((3 / 5 : ℝ) / (4 / 5)) := Real.arsinh_pos_iff.mpr (by norm_num)
+    have hlt : Real.exp (-(3 / 5 : ℝ) * Real.arsinh (3 / 5 / (4 / 5))) < 1 := by
+      rw [Real.exp_lt_one_iff]; nlinarith
+    nlinarith
+
+
+/-- `alb_reverse_forward_kernel`: sphere, a cone whose origin is the point itself -/
+example : ∃ (tphif : ℝ → ℝ) (E : Ell ℝ) (A : ALB ℝ) (sphi cphi : ℝ),
+    (epsx : ℝ) ≤ cphi ∧ tphif (txif E (sphi / cphi)) = sphi / cphi ∧ E.a ≠ 0 ∧ E.qZ ≠ 0 ∧ A.k0 ≠ 0 ∧ 0 < A.n0 ∧ 0 < A.m02 ∧
+    A.nrho0 = E.a * Real.sqrt A.m02 ∧ A.scxi0 = hyp A.txi0 ∧ A.sxi0 = A.txi0 / hyp A.txi0 ∧
+    0 ≤ A.m02 - A.n0 * albDq E.qZ (txif E (sphi / cphi)) (txif E (sphi / cphi) / hyp (txif E (sphi / cphi))) A.txi0 A.sxi0 ∧
+    0 < A.nrho0 + A.n0 * albDrho E.a A.m02 A.n0 A.nrho0
+            (albDq E.qZ (txif E (sphi / cphi)) (txif E (sphi / cphi) / hyp (txif E (sphi / cphi))) A.txi0 A.sxi0) ∧
+    0 ≤ A.nrho0 ∧ RealLike.sq (epsx : ℝ) ≤ hyp A.txi0 ^ 2 / hyp (txif E (sphi / cphi)) ^ 2 := by
+  have hq : (⟨1, 0⟩ : Ell ℝ).qZ = 2 := by
+    simp [Ell.qZ, Ell.e2m, Ell.e2, Ell.atanhee, atanhee, ltb_real, zero_real, one_real, two_real]
+    norm_num
+  set t := txif (⟨1, 0⟩ : Ell ℝ) ((3 / 5 : ℝ) / (4 / 5)) with ht
+  have hdq : albDq (⟨1, 0⟩ : Ell ℝ).qZ t (t / hyp t) t (t / hyp t) = 0 := by simp [albDq]
+  refine ⟨fun _ => (3 / 5 : ℝ) / (4 / 5), ⟨1, 0⟩, ⟨1, 0, 1, 1 / 2, 1, 1, 1, t, hyp t, t / hyp t⟩, 3 / 5, 4 / 5,
+    ?_, rfl, ?_, ?_, ?_, ?_, ?_, ?_, rfl, rfl, ?_, ?_, ?_, ?_⟩
+  · simp only [epsx, eps, sq_real, one_real, ofNat_real]; norm_num
+  · norm_num
+  · rw [hq]; norm_num
+  · norm_num
+  · norm_num
+  · norm_num
+  · simp
+  · simp only [← ht, hdq]; norm_num
+  · simp only [← ht, hdq]; simp [albDrho]
+  · norm_num
+  · simp only [← ht]
+    have hp := hyp_pos t
+    rw [div_self (by positivity)]
+    simp only [epsx, eps, sq_real, one_real, ofNat_real]; norm_num
+
+
+/-- `txif_closed`: `f = 1/2` at the equator -/
+example : ∃ (E : Ell ℝ) (tphi : ℝ), 0 < E.f ∧ 0 < E.e2 ∧ E.e2 < 1 ∧
+    (tphi / hyp tphi / (1 - E.e2 * (tphi / hyp tphi) ^ 2) + E.atanhee (tphi / hyp tphi)) ^ 2 < (1 / E.e2m + E.atanhee 1) ^ 2 := by
+  refine ⟨⟨1, 1 / 2⟩, 0, by norm_num, ?_, ?_, ?_⟩
+  · simp only [Ell.e2, two_real]; norm_num
+  · simp only [Ell.e2, two_real]; norm_num
+  · have he2 : (⟨1, 1 / 2⟩ : Ell ℝ).e2 = 3 / 4 := by simp only [Ell.e2, two_real]; norm_num
+    have hem : (⟨1, 1 / 2⟩ : Ell ℝ).e2m = 1 / 4 := by simp only [Ell.e2m, he2, one_real]; norm_num
+    have hepos : 0 < (⟨1, 1 / 2⟩ : Ell ℝ).e := by
+      simp only [Ell.e, he2, sqrt_real, abs_real]; positivity
+    have he1 : (⟨1, 1 / 2⟩ : Ell ℝ).e < 1 := by
+      simp only [Ell.e, he2, sqrt_real, abs_real]
+      rw [abs_of_pos (by norm_num : (0 : ℝ) < 3 / 4)]
+      calc Real.sqrt (3 / 4) < Real.sqrt 1 := Real.sqrt_lt_sqrt (by norm_num) (by norm_num)
+        _ = 1 := Real.sqrt_one
+    have hz : (⟨1, 1 / 2⟩ : Ell ℝ).atanhee 0 = 0 := by
+      simp [Ell.atanhee, atanhee, ltb_real, zero_real]
+    have h1 : 0 ≤ (⟨1, 1 / 2⟩ : Ell ℝ).atanhee 1 := by
+      simp only [Ell.atanhee, atanhee, ltb_real, zero_real, atanh_real, mul_one]
+      have : (0 : ℝ) < 1 / 2 := by norm_num
+      simp only [this, decide_true, if_true]
+      set e := (⟨1, 1 / 2⟩ : Ell ℝ).e
+      have : 1 ≤ (1 + e) / (1 - e) := by
+        rw [le_div_iff₀ (by linarith)]; linarith
+      have := Real.log_nonneg this
+      positivity
+    simp only [zero_div, hz, hem]
+    nlinarith
 
 end GeoVerif.Props.C11
